@@ -1098,7 +1098,7 @@ inline void DnsMessage::validateRdataSecurity(const DnsResourceRecord &rr)
   // Validate other record types that should never contain compression pointers in RDATA
   if (rr.type == DnsType::TXT || rr.type == DnsType::AAAA)
   {
-    for (std::size_t i = 0; i < rr.rdata.size() - 1; ++i)
+    for (std::size_t i = 0; i + 1 < rr.rdata.size(); ++i)
     {
       if ((rr.rdata[i] & constants::DNS_COMPRESSION_MASK) == constants::DNS_COMPRESSION_MASK)
       {
